@@ -27,6 +27,13 @@ class Check(RuntimeCheck):
                 "non-trivial = chain with >=2 segments or a single-use response requested at least twice")
 
     def extra(self, rep, tier, seed):
+        # a chain segment that applies the real function reaches the function registered for THAT method (positional unmock_with list)
+        from .macro_common import MacroCheck
+        class Generated(MacroCheck):
+            prop = 'C02'
+            case_prefixes = ('ref.unmock.after-static', 'ref.unmock.path', 'ref.unmock.listed')
+            facts_of_interest = r'$^'
+        Generated().explore_into(rep, tier, seed, ir=False, merge=True)
         # "a response configured without Clone is single-use" also for owned leaves inside composite return kinds:
         # the compiled single-use cases of C17's harness, judged against the proved Output model
         from .c17 import Check as C17
